@@ -1014,6 +1014,21 @@ class Module(ABC):
         # Override `comp_index` to just be a consecutive list.
         all_nodes["global_comp_index"] = np.arange(len(all_nodes))
 
+        # Groups are stored as compartment indices. Shift the indices of all subsequent
+        # compartments and let every group that contained (a part of) the modified
+        # branch contain all of its new compartments.
+        for group_name, group_inds in self.base.groups.items():
+            group_inds = np.asarray(group_inds)
+            end_idx = start_idx + number_deleted
+            before = group_inds[group_inds < start_idx]
+            within = group_inds[(group_inds >= start_idx) & (group_inds < end_idx)]
+            after = group_inds[group_inds >= end_idx] + (ncomp - number_deleted)
+            if len(within) > 0:
+                within = start_idx + np.arange(ncomp)
+            self.base.groups[group_name] = np.concatenate(
+                [before, within, after]
+            ).astype(int)
+
         # Update compartment structure arguments.
         ncomp_per_branch[branch_indices] = ncomp
         ncomp = int(np.max(ncomp_per_branch))
